@@ -107,24 +107,34 @@ def seasons(repo, rep):
             rep.ok("R-RANGE-REFUSE", site + "[%s]" % tg, "returns for years %s, ValueError otherwise" % ivs, sample=(k == 0))
         else:
             rep.violation("R-RANGE-REFUSE", site, "year-range:" + tg, "value-returning years are %s, the property says exactly -1000..3000 (others ValueError)" % (ivs,))
-        # target longitude k*90
-        vals = set()
-        for o in rets:
-            for x in T.walk(("bag", o.value, o.cond)):
-                if x[0] == "call" and x[1] == ".index" and x[2][0] in ("list", "tuple") and x[3] == ("str", tg):
-                    items = [e[1] for e in x[2][1:] if e[0] == "str"]
-                    if tg in items:
-                        vals.add(items.index(tg))
-        # the loop body must use 90 * index - longitude
-        uses = False
+        # target longitude k*90: the correction is G*sin(target - longitude); target - longitude + longitude must be the constant 90*k
+        consts = set()
         for o in rets:
             for x in T.walk(o.value):
-                if x[0] == "mul" and x[1] == T.num(90) and any(y[0] == "call" and y[1] == ".index" for y in x[2:]):
-                    uses = True
-        if vals == {k} and uses:
+                if x[0] == "call" and x[1] == "sin" and len(x) == 3:
+                    c_, rest = T.split_coeff(x[2])
+                    fac = rest[1:] if rest[0] == "mul" else (rest,)
+                    if D2R not in fac:
+                        continue
+                    inner = T.mul(T.num(c_), *[f for f in fac if f != D2R])
+                    lons = [y for y in T.walk(inner) if y[0] == "call" and y[1] in (".to_positive", "pos", "red", "degof")
+                            and any(z[0] == "call" and "apparent_geocentric_position" in z[1] for z in T.walk(y))]
+                    for L in lons:
+                        cst = T.add(inner, L)
+                        if cst[0] == "call" and cst[1] == ".index" and cst[2][0] in ("list", "tuple") and cst[3] in cst[2][1:]:
+                            cst = T.num(cst[2][1:].index(cst[3]))
+                        if cst[0] == "mul" and len(cst) == 3 and cst[1][0] == "num" and cst[2][0] == "call" and cst[2][1] == ".index" \
+                                and cst[2][2][0] in ("list", "tuple") and cst[2][3] in cst[2][2][1:]:
+                            cst = T.num(cst[1][1] * cst[2][2][1:].index(cst[2][3]))
+                        if cst[0] == "num":
+                            consts.add(cst[1])
+        if consts == {90 * k}:
             rep.ok("R-ENUM", site + "[%s]:target" % tg, "target apparent longitude %d deg" % (90 * k), sample=(k == 0))
+        elif not consts:
+            rep.inconcl("R-ENUM", site + "[%s]:target" % tg, "no correction of the form G*sin(target - apparent longitude) found")
         else:
-            rep.violation("R-ENUM", site, "target-longitude:" + tg, "season %r is not mapped to apparent longitude %d deg (index found: %s, 90*index used: %s)" % (tg, 90 * k, sorted(vals), uses))
+            rep.violation("R-ENUM", site, "target-longitude:" + tg, "season %r is iterated towards apparent longitude %s deg, not %d deg"
+                          % (tg, sorted(float(c) for c in consts), 90 * k))
     an = absint.analysis_for(repo)
     evs = [e for e in an.events_for("undef") if e.site == "Sun." + q]
     for e in evs:
